@@ -5,7 +5,7 @@ thorough tier. Writes /tmp/mut_final.json {key: {"ID:tier": caught}}. /repo is p
 import glob, json, os, re, subprocess, sys
 
 EXTRA = {  # cross-checks worth running (from earlier rounds)
- "C01-1": ["C09"], "C03-2": ["C04"], "C01b-2": ["C09"], "C02-2": ["C06"], "C02b-1": ["C09"], "C02b-2": ["C06"],
+ "C01-1": ["C09"], "C05c-1": ["C06", "C07"], "C05c-2": ["C06"], "C02c-2": ["C09"], "C03c-2": ["C09"], "C03c-1": ["C17"], "C15c-1": ["C13"], "C03-2": ["C04"], "C01b-2": ["C09"], "C02-2": ["C06"], "C02b-1": ["C09"], "C02b-2": ["C06"],
  "C03b-1": ["C07"], "C03b-2": ["C06", "C04"], "C04-2": ["C06"], "C05b-1": ["C06", "C04", "C20"], "C05b-2": ["C19"],
  "C07b-1": ["C14"], "C13b-1": ["C04"], "C15b-1": ["C06", "C04"], "C15b-2": ["C20"], "C14b-1": ["C13", "C05"],
  "C14b-2": ["C03"], "C18-1": ["C20"], "C18b-2": ["C20", "C13"], "C12b-2": ["C15", "C09"], "C13-1": ["C18"], "C05-1": ["C14"], "C07b-2": ["C14"],
